@@ -150,6 +150,12 @@ theorem RuleSim.retable {envA envB : Env} {A B : List Rule} {a b : Rule} (h : Ru
   · exact .inl ⟨_, _, by rw [hfa]; rfl, by rw [hfb]; rfl, hps.elim⟩
   · exact .inr ⟨by rw [hfa]; rfl, by rw [hfb]; rfl, hv⟩
 
+theorem subjRefsAreJoinCols_congr {a a' pa pb : Rule} (hj : a'.objectJoin = a.objectJoin)
+    (h1 : pa.subjectMapType = pb.subjectMapType) (h2 : pa.subjectMapValue = pb.subjectMapValue) :
+    subjRefsAreJoinCols a' pb = subjRefsAreJoinCols a pa := by
+  unfold subjRefsAreJoinCols refsOfRule
+  simp only [hj, h1, h2, ↓reduceIte]
+
 theorem eliminateSelfJoin_sim {envA envB : Env} {A B : List Rule} {a b : Rule} (h : RuleSim envA envB A B a b) :
     RuleSim envA envB (A.map (eliminateSelfJoin A)) (B.map (eliminateSelfJoin B)) (eliminateSelfJoin A a) (eliminateSelfJoin B b) := by
   by_cases hp : a.objectMapType = .parentTM
@@ -157,9 +163,13 @@ theorem eliminateSelfJoin_sim {envA envB : Env} {A B : List Rule} {a b : Rule} (
     · obtain ⟨i, s, v, rfl⟩ := h.fields
       have hfb' : B.find? (fun p => p.tmId = v) = some pb := hfb
       have hfa' : A.find? (fun p => p.tmId = a.objectMapValue) = some pa := hfa
-      by_cases hc : (a.logicalSourceValue = pa.logicalSourceValue && a.iterator = pa.iterator && a.objectJoin.all (fun cp => cp.1 = cp.2)) = true
-      · have hcb : (a.logicalSourceValue = pb.logicalSourceValue && a.iterator = pb.iterator && a.objectJoin.all (fun cp => cp.1 = cp.2)) = true := by
-          rw [← hps.lsv, ← hps.iterator]; exact hc
+      have hsj : subjRefsAreJoinCols { a with tmId := i, sourceName := s, objectMapValue := v } pb = subjRefsAreJoinCols a pa :=
+        subjRefsAreJoinCols_congr rfl hps.smt hps.smv
+      by_cases hc : (a.logicalSourceValue = pa.logicalSourceValue && a.iterator = pa.iterator && a.objectJoin.all (fun cp => cp.1 = cp.2)
+          && subjRefsAreJoinCols a pa) = true
+      · have hcb : (a.logicalSourceValue = pb.logicalSourceValue && a.iterator = pb.iterator && a.objectJoin.all (fun cp => cp.1 = cp.2)
+            && subjRefsAreJoinCols { a with tmId := i, sourceName := s, objectMapValue := v } pb) = true := by
+          rw [← hps.lsv, ← hps.iterator, hsj]; exact hc
         have ea : eliminateSelfJoin A a = { a with objectMapType := pa.subjectMapType, objectMapValue := pa.subjectMapValue,
                                                     objectTermtype := pa.subjectTermtype, objectJoin := [] } := by
           unfold eliminateSelfJoin
@@ -175,8 +185,9 @@ theorem eliminateSelfJoin_sim {envA envB : Env} {A B : List Rule} {a b : Rule} (
         refine ⟨⟨i, s, pa.subjectMapValue, rfl⟩, fun _ => rfl, ?_, fun hpp => absurd hpp hps.smt_ne⟩
         have := h.table
         exact this
-      · have hcb : ¬ (a.logicalSourceValue = pb.logicalSourceValue && a.iterator = pb.iterator && a.objectJoin.all (fun cp => cp.1 = cp.2)) = true := by
-          rw [← hps.lsv, ← hps.iterator]; exact hc
+      · have hcb : ¬ (a.logicalSourceValue = pb.logicalSourceValue && a.iterator = pb.iterator && a.objectJoin.all (fun cp => cp.1 = cp.2)
+            && subjRefsAreJoinCols { a with tmId := i, sourceName := s, objectMapValue := v } pb) = true := by
+          rw [← hps.lsv, ← hps.iterator, hsj]; exact hc
         have ea : eliminateSelfJoin A a = a := by
           unfold eliminateSelfJoin
           rw [if_pos hp, hfa']
